@@ -22,7 +22,7 @@ from prng import Rng
 ID = "C20"
 LEAN_MODULE = "RpycModel.Props.C20"
 NAMESPACE = "Rpyc.Props.C20"
-GEN = []
+GEN = ["Files.lean"]
 DRIVERS = ["drv_files"]
 TRUSTED = [
     "modelled, not verified: the filesystem and the remote open/os.* calls are real and trusted: read(n) on a regular "
@@ -221,17 +221,16 @@ class Rig:
         if case.get("dest_exists"):
             os.mkdir(dst)
         filt = FILTERS[case["filter"]]
+        kw = {} if case["chunk"] is None else dict(chunk_size=case["chunk"])      # None: the function's own default
         try:
             if case["direction"] == "upload":
-                classic.upload(self.conn, src, dst, filter=filt, ignore_invalid=case["ignore_invalid"],
-                               chunk_size=case["chunk"])
+                classic.upload(self.conn, src, dst, filter=filt, ignore_invalid=case["ignore_invalid"], **kw)
             elif case["direction"] == "download":
-                classic.download(self.conn, src, dst, filter=filt, ignore_invalid=case["ignore_invalid"],
-                                 chunk_size=case["chunk"])
+                classic.download(self.conn, src, dst, filter=filt, ignore_invalid=case["ignore_invalid"], **kw)
             elif case["direction"] == "upload_file":
-                classic.upload_file(self.conn, src, dst, chunk_size=case["chunk"])
+                classic.upload_file(self.conn, src, dst, **kw)
             else:
-                classic.download_file(self.conn, src, dst, chunk_size=case["chunk"])
+                classic.download_file(self.conn, src, dst, **kw)
         except Exception as ex:  # noqa
             out = ("err", type(ex).__name__)
         else:
@@ -241,10 +240,21 @@ class Rig:
         return out, listed
 
 
+def default_chunk(direction):
+    """the default chunk_size of the live function (what a call without chunk_size uses)"""
+    import inspect
+    import rpyc.utils.classic as classic
+    return inspect.signature(getattr(classic, direction)).parameters["chunk_size"].default
+
+
+def chunk_of(case):
+    return default_chunk(case["direction"]) if case["chunk"] is None else case["chunk"]
+
+
 def op_line(case, listed):
     if case["direction"] in ("upload_file", "download_file"):
-        return "files copy %d %s" % (case["chunk"], listed[1].hex())
-    return "files %s %d %s %s %s" % (case["direction"], case["chunk"], case["filter"],
+        return "files copy %d %s" % (chunk_of(case), listed[1].hex())
+    return "files %s %d %s %s %s" % (case["direction"], chunk_of(case), case["filter"],
                                      "T" if case["ignore_invalid"] else "F", tree_text(listed))
 
 
@@ -297,6 +307,12 @@ def boundary_cases():
                 out.append(dict(direction=d, chunk=1, filter=f, ignore_invalid=ii, tree=("D", [])))
                 out.append(dict(direction=d, chunk=1, filter=f, ignore_invalid=ii, tree=("D", []), dest_exists=True))
         out.append(dict(direction=d, chunk=64000, filter="N", ignore_invalid=False, dest_exists=True, tree=sample))
+        # without chunk_size: the functions' own default
+        out.append(dict(direction=d, chunk=None, filter="N", ignore_invalid=False, tree=sample))
+        out.append(dict(direction=d, chunk=None, filter="S" + b".tmp".hex(), ignore_invalid=False, tree=sample))
+        for n in (0, 1, 63999, 64000, 64001):
+            out.append(dict(direction=d + "_file", chunk=None, filter="N", ignore_invalid=False,
+                            tree=("F", bytes((i * 13 + 5) & 0xFF for i in range(n)))))
     return out
 
 
@@ -308,8 +324,8 @@ def gen_case(r):
 
 
 def case_desc(case, listed=None):
-    return "%s chunk=%d filter=%s ignore_invalid=%s dest_exists=%s tree=%s" % (
-        case["direction"], case["chunk"], case["filter"], case["ignore_invalid"], bool(case.get("dest_exists")),
+    return "%s chunk=%s filter=%s ignore_invalid=%s dest_exists=%s tree=%s" % (
+        case["direction"], "default" if case["chunk"] is None else case["chunk"], case["filter"], case["ignore_invalid"], bool(case.get("dest_exists")),
         brief(listed if listed is not None else case["tree"]))
 
 
@@ -343,7 +359,7 @@ def correspondence(ctx):
         c.evaluations += 1
         got = model_outcome(got_line)
         c.count("direction:" + case["direction"])
-        c.count("chunk:%d" % case["chunk"])
+        c.count("chunk:%s" % ("default" if case["chunk"] is None else case["chunk"]))
         c.count("filter:" + case["filter"])
         c.count("outcome:" + (want[0] if want[0] == "ok" and want[1] is not None else
                               "nothing-created" if want[0] == "ok" else "err " + want[1]))
@@ -359,7 +375,7 @@ def correspondence(ctx):
             continue
         acc = count(listed, dict(files=0, dirs=0, others=0, empty_dirs=0, bytes=0))
         if acc["files"] or want[0] == "err":
-            c.signatures.add("%s|%d|%s|%s|%s" % (case["direction"], case["chunk"], case["filter"], brief(listed),
+            c.signatures.add("%s|%s|%s|%s|%s" % (case["direction"], case["chunk"], case["filter"], brief(listed),
                                                  show_brief(want)))
         if len(c.samples) < 12 and c.evaluations % 37 == 5:
             c.samples.append(dict(case=case_desc(case, listed)[:400], outcome=show_brief(want)[:300]))
